@@ -501,6 +501,88 @@ def own_block_variants(code: str, rng=None, limit=3):
     return out
 
 
+def binding_variants(code: str):
+    """Bindings that stay in use in less obvious ways:
+    * every name assigned at module level is also read from inside a function (a nested reader);
+    * the whole module body inside a function whose assigned names are read by a nested function that is returned;
+    * a simple assignment `a = V` chained as `a = a_twin = V` with `a_twin` used afterwards;
+    * `from m import n` spelled `from m import n as n_al` with every use of `n` renamed."""
+    import ast
+    import io
+    import tokenize
+    try:
+        tree = ast.parse(code)
+    except (SyntaxError, ValueError, RecursionError):
+        return []
+    code_nl = code if code.endswith("\n") else code + "\n"
+    out = []
+    assigned = []
+    for n in tree.body:
+        if isinstance(n, ast.Assign):
+            for t in n.targets:
+                if isinstance(t, ast.Name) and t.id not in assigned:
+                    assigned.append(t.id)
+    if assigned:
+        tup = ", ".join(assigned) + ("," if len(assigned) == 1 else "")
+        out.append(("nested_reader_module", code_nl + f"\n\ndef _reads_module_names():\n    return ({tup})\n"))
+        head, body = _split_future(code_nl)
+        if body.strip():
+            out.append(("nested_reader_function", head + "def wrapper_function():\n" + _indent(body, "    ")
+                        + f"\n    def _reader():\n        return ({tup})\n    return _reader\n\n\nwrapper_function()\n"))
+    # chained assignment
+    lines = code_nl.splitlines(keepends=True)
+    for n in ast.walk(tree):
+        if isinstance(n, ast.Assign) and len(n.targets) == 1 and isinstance(n.targets[0], ast.Name) and n.lineno == n.end_lineno:
+            l = lines[n.lineno - 1]
+            name = n.targets[0].id
+            indent = l[:len(l) - len(l.lstrip())]
+            prefix = l[:n.col_offset] if False else indent
+            stmt = l.strip()
+            if stmt.startswith(name + " =") and not stmt.startswith(name + " =="):
+                newl = f"{indent}{name} = {name}_twin ={stmt[len(name) + 2:]}\n"
+                # the use of the twin goes right after the construct the assignment belongs to (same indentation)
+                new = "".join(lines[:n.lineno - 1]) + newl + "".join(lines[n.lineno:]) + ""
+                use = f"\n_twin_use = {name}_twin\n" if indent == "" else ""
+                if use and parses(new + use):
+                    out.append(("chained_assign", new + use))
+                    break
+    # aliased from-import with renamed uses
+    for n in tree.body:
+        if isinstance(n, ast.ImportFrom) and n.module and n.level == 0 and n.module != "__future__" and n.lineno == n.end_lineno:
+            cand = [a for a in n.names if a.asname is None and a.name != "*"]
+            if not cand:
+                continue
+            a = cand[0]
+            alias = a.name + "_al"
+            try:
+                toks = list(tokenize.generate_tokens(io.StringIO(code_nl).readline))
+            except (tokenize.TokenError, IndentationError, SyntaxError):
+                break
+            res_lines = code_nl.splitlines(keepends=True)
+            edits = []
+            prev = None
+            for t in toks:
+                if t.type == tokenize.NAME and t.string == a.name and t.start[0] != n.lineno and not (prev and prev.type == tokenize.OP and prev.string == "."):
+                    edits.append(t)
+                if t.type not in (tokenize.NL, tokenize.COMMENT):
+                    prev = t
+            for t in sorted(edits, key=lambda t: t.start, reverse=True):
+                r, c0, c1 = t.start[0] - 1, t.start[1], t.end[1]
+                res_lines[r] = res_lines[r][:c0] + alias + res_lines[r][c1:]
+            il = res_lines[n.lineno - 1]
+            import re as _re
+            m_imp = _re.search(r"\bimport\s", il)
+            if m_imp:
+                headp, tailp = il[:m_imp.end()], il[m_imp.end():]
+                res_lines[n.lineno - 1] = headp + _re.sub(r"\b" + _re.escape(a.name) + r"\b(?!\s+as\b)", f"{a.name} as {alias}", tailp, count=1)
+            # only the imported-names part may be touched: re-check by parsing
+            new = "".join(res_lines)
+            if new != code_nl and parses(new):
+                out.append(("aliased_import_renamed", new))
+            break
+    return out
+
+
 def composed_variants(code: str, rng, k=4):
     """A structural wrapper with a layout / comment / context variant applied on top of it."""
     base = [v for v in _variants_basic(code, True) if v[0].startswith("in_")]
@@ -529,5 +611,6 @@ def variants(code: str, shift_ok: bool, rng=None):  # noqa: F811
         out.extend(twin_import_variants(code))
         out.extend(comment_variants(code if code.endswith("\n") else code + "\n"))
         out.extend(own_block_variants(code if code.endswith("\n") else code + "\n", rng))
+        out.extend(binding_variants(code))
         out.extend(composed_variants(code if code.endswith("\n") else code + "\n", rng or __import__("random").Random(0)))
     return out
